@@ -36,5 +36,7 @@ finally:
         tracked = subprocess.run(["git", "-C", "/repo", "ls-files", "--error-unmatch", f], capture_output=True).returncode == 0
         if not tracked and os.path.exists(fp):
             os.remove(fp)
+# the evidence files written by the violating runs must not replace the committed ones
+subprocess.run(["git", "-C", VERIF, "checkout", "--", "evidence"])
 json.dump(res, open(os.path.join(d, "result.json"), "w"), indent=1)
 print(json.dumps(res, indent=1))
